@@ -250,6 +250,9 @@ func GenDaemon(prop string, seed uint64, tier string) *DaemonScenario {
 				add(Act{AtMs: g0 + int64(sc.Reshares[0].AtRound-1)*periodMs - 500, Kind: "loosen_modes", Node: r.Intn(sc.N)})
 				rounds = sc.Reshares[0].AtRound + 14 + (sc.KickoffS+3*sc.PhaseS)/sc.PeriodS
 				faultEnd = g0 + int64(rounds)*periodMs
+				if r.Bool(35) {
+					sc.CloseDKGDBAtFinish = r.Intn(sc.N) + 1
+				}
 			}
 		}
 	case "C19":
